@@ -269,6 +269,76 @@ class CoopQueue:
         return len(self.items)
 
 
+class CoopEvent:
+    def __init__(self):
+        self._flag = False
+
+    def is_set(self):
+        return self._flag
+    isSet = is_set
+
+    def set(self):
+        s = Sched.cur
+        if s is not None and s.abort is None:
+            s.yield_(lambda: True, what="event.set")
+        self._flag = True
+
+    def clear(self):
+        self._flag = False
+
+    def wait(self, timeout=None):
+        s = Sched.cur
+        if s is None or s.abort is not None:
+            return self._flag
+        s.yield_(lambda: self._flag, can_timeout=timeout is not None, what="event.wait")
+        return self._flag
+
+
+class CoopLock:
+    def __init__(self):
+        self._owner = None
+        self._count = 0
+
+    def acquire(self, blocking=True, timeout=-1):
+        s = Sched.cur
+        if s is None or s.abort is not None:
+            self._count += 1
+            return True
+        me = s.current
+        if self._owner is me and type(self).__name__ == "CoopRLock":
+            self._count += 1
+            return True
+        if not blocking:
+            s.yield_(lambda: True, what="lock.try")
+            if self._owner is not None:
+                return False
+        else:
+            to = s.yield_(lambda: self._owner is None, can_timeout=timeout is not None and timeout >= 0, what="lock.acquire")
+            if to:
+                return False
+        self._owner, self._count = me, 1
+        return True
+
+    def release(self):
+        self._count -= 1
+        if self._count <= 0:
+            self._owner, self._count = None, 0
+
+    def locked(self):
+        return self._owner is not None
+
+    def __enter__(self):
+        self.acquire()
+        return self
+
+    def __exit__(self, *a):
+        self.release()
+
+
+class CoopRLock(CoopLock):
+    pass
+
+
 def coop_sleep(seconds=0):
     """time.sleep: the sleeper resumes only when no other thread can run (a fair stand-in for 'later')"""
     s = Sched.cur
@@ -293,10 +363,19 @@ def modules():
     ft.Thread = CoopThread
     ft.enumerate = lambda: [Sched.cur.main] + [t for t in Sched.cur.threads if t.is_alive()] if Sched.cur else []
     ft.current_thread = threading.current_thread
+    ft.Event = CoopEvent
+    ft.Lock = CoopLock
+    ft.RLock = CoopRLock
+    ft.main_thread = threading.main_thread
+    ft.__getattr__ = lambda name: getattr(threading, name)      # anything else: the real thing (not modelled)
     fq = types.ModuleType("sx_queue")
     fq.Queue = CoopQueue
     fq.Empty = Empty
     fq.Full = Full
+    import queue as _q
+    fq.SimpleQueue = CoopQueue
+    fq.LifoQueue = _q.LifoQueue
+    fq.PriorityQueue = _q.PriorityQueue
     sys.modules["sx_threading"] = ft
     sys.modules["sx_queue"] = fq
     return {"threading": "sx_threading", "queue": "sx_queue"}
